@@ -1,18 +1,21 @@
 """E1 algebra: exact generalised rational functions over Q[i].
 
-A value (``Expr``) is a pair of polynomials num/den.  A polynomial is a dict
-``{mono: Cx}``; a monomial is a tuple of ``(Atom, exponent)`` sorted by atom id,
-exponents being ``Fraction`` (fast path) or a non-constant ``Expr`` (symbolic
-exponents, e.g. Kormann-Meixner).  Atoms are interned *semantically*: two opaque
-applications with equal (by cross-multiplication) arguments are the same object.
+A value (``Expr``) is ONE generalised Laurent polynomial: a dict
+``{mono: Cx}`` whose monomials are tuples of ``(Atom, exponent)`` sorted by atom
+id; exponents are ``Fraction`` (fast path) or a non-constant ``Expr`` (symbolic
+exponents, e.g. Kormann-Meixner).  Division by a multi-term polynomial D is a
+multiplication by the atom ``base(D')^-1`` (D' = D made content-free and monic),
+so quotients stay polynomial in an extended set of generators.  Atoms are
+interned *semantically*: two opaque applications with equal arguments are the
+same object.
 
-Equality of two ``Expr`` is decided by cross-multiplication and comparison of
-canonical monomial dictionaries.  Opaque atoms are treated as algebraically
-independent, so a missed identity can only make two equal values look different
-(reported as an uninterpretable obligation by the rules), never make two
-different values look equal.
-
-No solver, no CAS, stdlib only.
+Equality of two values is decided by ``is_zero`` of the difference, which clears
+the ``base`` denominators (multiplying through and substituting the definition)
+and then compares canonical monomial dictionaries: a decision procedure for the
+rational-function identities, no heuristics, no solver, no CAS.  Opaque atoms
+are treated as algebraically independent, so a missed identity can only make
+two equal values look different (reported as an undischarged obligation),
+never make two different values look equal.
 """
 
 from fractions import Fraction as Q
@@ -39,6 +42,8 @@ class Cx:
         return Cx(-self.re, -self.im)
 
     def __mul__(self, o):
+        if self.im == 0 and o.im == 0:
+            return Cx(self.re * o.re, 0)
         return Cx(self.re * o.re - self.im * o.im, self.re * o.im + self.im * o.re)
 
     def inv(self):
@@ -47,9 +52,6 @@ class Cx:
 
     def is_zero(self):
         return self.re == 0 and self.im == 0
-
-    def is_real(self):
-        return self.im == 0
 
     def __eq__(self, o):
         return isinstance(o, Cx) and self.re == o.re and self.im == o.im
@@ -88,16 +90,21 @@ class Atom:
             return self.name
         if self.kind == "base":
             return "{%r}" % (self.args[0],)
+        if self.kind == "def":
+            return "<%s#%d>" % (self.meta or "def", self.id)
         return "%s(%s)" % (self.name, ", ".join(repr(a) for a in self.args))
 
-    def __lt__(self, o):
-        return self.id < o.id
+
+E = PI = None
 
 
 def reset():
     """Forget all atoms (ids restart; used between independent analyses)."""
     Atom._registry.clear()
     Atom._count[0] = 0
+    _DEFS.clear()
+    _ROOTS.clear()
+    _AFP.clear()
     global E, PI
     E = _atom("sym", "e", (), pos=True, real=True)
     PI = _atom("sym", "pi", (), pos=True, real=True)
@@ -110,6 +117,8 @@ def _atom(kind, name, args, pos=False, real=True, integer=False):
         if all(_same(x, y) for x, y in zip(a.args, args)):
             if pos and not a.pos:
                 a.pos = True
+            if integer and not a.integer:
+                a.integer = True
             return a
     a = Atom(kind, name, tuple(args), pos, real, integer)
     lst.append(a)
@@ -118,7 +127,11 @@ def _atom(kind, name, args, pos=False, real=True, integer=False):
 
 def _same(x, y):
     if isinstance(x, Expr) and isinstance(y, Expr):
+        if x.n == y.n:
+            return True
         return x.eq(y)
+    if isinstance(x, Expr) or isinstance(y, Expr):
+        return False
     return x == y
 
 
@@ -126,30 +139,42 @@ def _same(x, y):
 # monomials and polynomials (plain tuples / dicts)
 
 
+NUM = (int, Q)
+
+
 def _exp_norm(e):
-    """Exponent canonical form: Fraction when constant real, else Expr."""
+    """Exponent canonical form: int / Fraction when constant real, else Expr."""
     if isinstance(e, Expr):
         c = e.as_const()
         if c is not None and c.im == 0:
-            return c.re
+            e = c.re
+        else:
+            return e
+    if isinstance(e, int):
         return e
-    return e if isinstance(e, Q) else Q(e)
+    if not isinstance(e, NUM):
+        e = Q(e)
+    return e.numerator if e.denominator == 1 else e
 
 
 def _exp_add(a, b):
-    if isinstance(a, Q) and isinstance(b, Q):
+    if isinstance(a, int) and isinstance(b, int):
         return a + b
+    if isinstance(a, NUM) and isinstance(b, NUM):
+        return _exp_norm(a + b)
     return _exp_norm(as_expr(a) + as_expr(b))
 
 
 def _exp_mul(a, b):
-    if isinstance(a, Q) and isinstance(b, Q):
+    if isinstance(a, int) and isinstance(b, int):
         return a * b
+    if isinstance(a, NUM) and isinstance(b, NUM):
+        return _exp_norm(a * b)
     return _exp_norm(as_expr(a) * as_expr(b))
 
 
 def _exp_is_zero(e):
-    return e == 0 if isinstance(e, Q) else e.is_zero()
+    return e == 0 if isinstance(e, NUM) else e.is_zero()
 
 
 def mono_mul(m1, m2):
@@ -232,28 +257,31 @@ def pscale(p, c, m=()):
 
 
 def _mono_key(m):
-    return tuple((a.id, (0, e) if isinstance(e, Q) else (1, repr(e))) for a, e in m)
+    return tuple((a.id, (0, e) if isinstance(e, NUM) else (1, repr(e))) for a, e in m)
 
 
 def _lead(p):
-    """Leading (monomial, coeff) under a fixed total order."""
     m = max(p, key=_mono_key)
     return m, p[m]
 
 
-def _pdiv_exact(num, den, limit=400):
+class _NoOrder(Exception):
+    pass
+
+
+def _pdiv_exact(num, den, limit=200):
     """Try num == q * den; returns q (poly) or None.  Bounded; sound either way
     (q is only returned when the remainder is exactly zero)."""
     if len(den) == 1:
         (m, c), = den.items()
-        return pscale(num, c.inv(), mono_pow(m, Q(-1)))
+        return pscale(num, c.inv(), mono_pow(m, -1))
     ids = sorted({a.id for p in (num, den) for m in p for a, _ in m})
     pos = {k: i for i, k in enumerate(ids)}
 
     def key(m):
-        v = [Q(0)] * len(ids)
+        v = [0] * len(ids)
         for a, e in m:
-            if not isinstance(e, Q):
+            if not isinstance(e, NUM):
                 raise _NoOrder()
             v[pos[a.id]] = e
         return tuple(v)
@@ -261,34 +289,23 @@ def _pdiv_exact(num, den, limit=400):
     try:
         ml = max(den, key=key)
         cl = den[ml]
-        inv_ml = mono_pow(ml, Q(-1))
+        inv_ml = mono_pow(ml, -1)
         cinv = cl.inv()
         q = {}
         r = dict(num)
         steps = 0
         while r:
             steps += 1
-            if steps > limit or len(r) > 4 * (len(num) + len(den)) + 50:
+            if steps > limit or len(r) > 3 * (len(num) + len(den)) + 20:
                 return None
             mr = max(r, key=key)
             t_m = mono_mul(mr, inv_ml)
             t_c = r[mr] * cinv
             q = padd(q, {t_m: t_c})
             r = padd(r, pscale(den, t_c, t_m), sign=-1)
-            for m in r:
-                for a, _ in m:
-                    if a.id not in pos:
-                        return None
         return q
-    except _NoOrder:
+    except (_NoOrder, KeyError):
         return None
-
-
-class _NoOrder(Exception):
-    pass
-
-
-ONEP = {(): C1}
 
 
 # --------------------------------------------------------------------------
@@ -296,91 +313,146 @@ ONEP = {(): C1}
 
 
 class Expr:
-    __slots__ = ("n", "d", "_h")
+    __slots__ = ("n", "_z", "_s", "_x", "_f")
 
-    def __init__(self, n, d=None, _raw=False):
+    def __init__(self, n):
         self.n = n
-        self.d = ONEP if d is None else d
-        self._h = None
-        if not _raw:
-            self._normalise()
+        self._z = None
+        self._s = None
+        self._x = None
+        self._f = None
 
-    # ---- normal form
-    def _normalise(self):
-        n, d = self.n, self.d
-        if not d:
-            raise ZeroDivisionError("division by an identically zero expression")
-        if not n:
-            self.n, self.d = {}, ONEP
-            return
-        if len(d) == 1:
-            (m, c), = d.items()
-            if m or c != C1:
-                n = pscale(n, c.inv(), mono_pow(m, Q(-1)))
-            self.n, self.d = n, ONEP
-            return
-        # general denominator: cancel when the division is exact (either way)
-        q = _pdiv_exact(n, d)
-        if q is not None:
-            self.n, self.d = q, ONEP
-            return
-        q = _pdiv_exact(d, n)
-        if q is not None and len(q) == 1:
-            (m, c), = q.items()
-            self.n, self.d = {mono_pow(m, Q(-1)): c.inv()}, ONEP
-            return
-        if q is not None:
-            n, d = ONEP, q
-        # monomial content of the denominator goes to the numerator; leading coeff 1
-        cont = None
-        for m in d:
-            mm = {a.id: (a, e) for a, e in m if isinstance(e, Q)}
-            if cont is None:
-                cont = mm
+    def fp(self):
+        """Evaluation at a fixed pseudo-random point of F_p (i -> sqrt(-1)).
+        Two values with different fingerprints are different rational
+        functions; equal fingerprints prove nothing (the exact test decides).
+        None when the value has symbolic / unsupported fractional exponents."""
+        if self._f is None:
+            self._f = _fingerprint(self)
+        return None if self._f is False else self._f
+
+    def has_defs(self):
+        for m in self.n:
+            for a, e in m:
+                if a.kind == "def" or (isinstance(e, Expr) and e.has_defs()):
+                    return True
+        return False
+
+    def expand(self, pred=None):
+        """Replace definitional atoms (all, or those with pred(atom)) by their
+        definitions, recursively, at polynomial level and in exponents."""
+        if pred is None and self._x is not None:
+            return self._x
+        if not self.has_defs():
+            if pred is None:
+                self._x = self
+            return self
+        tot = ZERO
+        changed = False
+        for m, c in self.n.items():
+            t = None
+            plain = []
+            for a, e in m:
+                e2 = e
+                if isinstance(e, Expr) and e.has_defs():
+                    e2 = _exp_norm(e.expand(pred))
+                    changed = True
+                if a.kind == "def" and (pred is None or pred(a)):
+                    f = power(a.args[0].expand(pred), e2)
+                    t = f if t is None else t * f
+                    changed = True
+                elif e2 is not e:
+                    f = power(atom_expr(a), e2)
+                    t = f if t is None else t * f
+                else:
+                    plain.append((a, e))
+            base = Expr({tuple(plain): c})
+            tot = tot + (base if t is None else base * t)
+        r = tot if changed else self
+        if pred is None:
+            self._x = r
+            r._x = r
+        return r
+
+    def simp(self):
+        """Cancel base-denominators when the division is exact (value unchanged)."""
+        if self._s is not None:
+            return self._s
+        r = self
+        if len(self.n) > 1 and self._has_neg_base():
+            num, den = _num_den(self)
+            if not num.n:
+                r = ZERO
             else:
-                cont = {
-                    k: (a, min(e, mm[k][1])) for k, (a, e) in cont.items() if k in mm
-                }
-        if cont:
-            cm = tuple(sorted(((a, e) for a, e in cont.values() if e != 0), key=lambda t: t[0].id))
-            if cm:
-                inv = mono_pow(cm, Q(-1))
-                n = pscale(n, C1, inv)
-                d = pscale(d, C1, inv)
-        ml, cl = _lead(d)
-        if cl != C1:
-            n = pscale(n, cl.inv())
-            d = pscale(d, cl.inv())
-        self.n, self.d = n, d
+                q = _pdiv_exact(num.n, den.n)
+                if q is not None:
+                    r = _fix_bases(Expr(q))
+                    if r._has_neg_base() and len(r.n) > 1 and r.n != self.n:
+                        r = r.simp()
+        self._s = r
+        r._s = r
+        return r
 
     # ---- predicates
+    def _has_neg_base(self):
+        for m in self.n:
+            for a, e in m:
+                if a.kind == "base" and isinstance(e, NUM) and e < 0:
+                    return True
+        return False
+
     def is_zero(self):
-        return not self.n
+        if not self.n:
+            return True
+        if self._z is None:
+            f = self.fp()
+            if f is not None and f != 0:
+                self._z = False
+                return False
+            x = self
+            if self.has_defs():
+                x = self.expand()
+            if not x.n:
+                self._z = True
+            elif len(x.n) == 1 or not x._has_neg_base():
+                self._z = False
+            else:
+                self._z = not _clear_den(x.n)
+        return self._z
 
     def as_const(self):
-        if self.d is not ONEP and self.d != ONEP:
-            return None
         if not self.n:
             return C0
-        if len(self.n) == 1 and () in self.n:
-            return self.n[()]
+        if len(self.n) == 1:
+            return self.n.get(())
+        if self._has_neg_base():
+            r = self.simp()
+            if r is not self:
+                return r.as_const()
         return None
 
     def is_poly(self):
-        return self.d is ONEP or self.d == ONEP
+        return True
 
     def as_mono(self):
         """(coeff, mono) when the value is a single term, else None."""
-        if self.is_poly() and len(self.n) == 1:
+        if len(self.n) == 1:
             (m, c), = self.n.items()
             return c, m
+        if self._has_neg_base():
+            r = self.simp()
+            if r is not self:
+                return r.as_mono()
         return None
 
     def eq(self, o):
         o = as_expr(o)
-        if self.d == o.d:
-            return padd(self.n, o.n, -1) == {}
-        return padd(pmul(self.n, o.d), pmul(o.n, self.d), -1) == {}
+        if self.n == o.n:
+            return True
+        fa, fb = self.fp(), o.fp()
+        if fa is not None and fb is not None and fa != fb:
+            return False
+        return Expr(padd(self.n, o.n, -1)).is_zero()
 
     def __eq__(self, o):
         if not isinstance(o, (Expr, int, Q)):
@@ -394,37 +466,73 @@ class Expr:
     # ---- arithmetic
     def __add__(self, o):
         o = as_expr(o)
-        if self.d == o.d:
-            return Expr(padd(self.n, o.n), self.d)
-        return Expr(padd(pmul(self.n, o.d), pmul(o.n, self.d)), pmul(self.d, o.d))
+        if not o.n:
+            return self
+        if not self.n:
+            return o
+        return Expr(padd(self.n, o.n))
 
     __radd__ = __add__
 
     def __neg__(self):
-        return Expr(pscale(self.n, -C1), self.d, _raw=True)
+        return Expr(pscale(self.n, -C1))
 
     def __sub__(self, o):
-        return self + (-as_expr(o))
+        o = as_expr(o)
+        if not o.n:
+            return self
+        return Expr(padd(self.n, o.n, -1))
 
     def __rsub__(self, o):
-        return as_expr(o) + (-self)
+        return as_expr(o) - self
 
     def __mul__(self, o):
         o = as_expr(o)
-        r = Expr(pmul(self.n, o.n), pmul(self.d, o.d) if not (self.is_poly() and o.is_poly()) else None)
-        return _fix_bases(r)
+        if not self.n or not o.n:
+            return ZERO
+        return _fix_bases(Expr(pmul(self.n, o.n)))
 
     __rmul__ = __mul__
 
     def inv(self):
-        return _fix_bases(Expr(self.d, self.n))
+        if not self.n:
+            raise ZeroDivisionError("division by an identically zero expression")
+        if len(self.n) == 1:
+            (m, c), = self.n.items()
+            return _fix_bases(Expr({mono_pow(m, -1): c.inv()}))
+        if self.is_zero():
+            raise ZeroDivisionError("division by an identically zero expression")
+        # content-free, monic denominator as a generator
+        cont = None
+        for m in self.n:
+            mm = {a.id: (a, e) for a, e in m if isinstance(e, NUM)}
+            if cont is None:
+                cont = mm
+            else:
+                cont = {k: (a, min(e, mm[k][1])) for k, (a, e) in cont.items() if k in mm}
+        cm = tuple(sorted(((a, e) for a, e in (cont or {}).values() if e != 0), key=lambda t: t[0].id))
+        d = self.n
+        if cm:
+            d = pscale(d, C1, mono_pow(cm, -1))
+        ml, cl = _lead(d)
+        if cl != C1:
+            d = pscale(d, cl.inv())
+        D = Expr(d)
+        b = _atom("base", "base", (D,), pos=(manifest_sign(D) == {"+"}))
+        return Expr({mono_mul(((b, -1),), mono_pow(cm, -1)): cl.inv()})
 
     def __truediv__(self, o):
         o = as_expr(o)
+        if len(o.n) > 1 and len(self.n) >= 1:
+            if self.n == o.n:
+                return ONE
+            q = _pdiv_exact(self.n, o.n)
+            if q is not None:
+                return _fix_bases(Expr(q))
         return self * o.inv()
 
     def __rtruediv__(self, o):
-        return as_expr(o) * self.inv()
+        return as_expr(o) / self
 
     def __pow__(self, e):
         return power(self, e)
@@ -432,44 +540,43 @@ class Expr:
     # ---- inspection
     def atoms(self, deep=True, _acc=None):
         acc = set() if _acc is None else _acc
-        for p in (self.n, self.d):
-            for m in p:
-                for a, e in m:
-                    if a not in acc:
-                        acc.add(a)
-                        if deep:
-                            for x in a.args:
-                                if isinstance(x, Expr):
-                                    x.atoms(True, acc)
-                    if deep and isinstance(e, Expr):
-                        e.atoms(True, acc)
+        for m in self.n:
+            for a, e in m:
+                if a not in acc:
+                    acc.add(a)
+                    if deep:
+                        for x in a.args:
+                            if isinstance(x, Expr):
+                                x.atoms(True, acc)
+                if deep and isinstance(e, Expr):
+                    e.atoms(True, acc)
         return acc
 
     def top_atoms(self):
         """atoms occurring as polynomial generators (not inside args/exponents)"""
-        return {a for p in (self.n, self.d) for m in p for a, _ in m}
+        return {a for m in self.n for a, _ in m}
 
     def degree_in(self, atoms):
-        """(min, max) total degree of numerator terms in the given atoms; None if
-        they occur with non-constant exponents."""
+        """(min, max) total degree of the terms in the given atoms; None if they
+        occur with non-constant exponents."""
         ids = {a.id for a in atoms}
         lo = hi = None
         for m in self.n:
-            dg = Q(0)
+            dg = 0
             for a, e in m:
                 if a.id in ids:
-                    if not isinstance(e, Q):
+                    if not isinstance(e, NUM):
                         return None
                     dg += e
             lo = dg if lo is None else min(lo, dg)
             hi = dg if hi is None else max(hi, dg)
-        return (lo, hi) if lo is not None else (Q(0), Q(0))
+        return (lo, hi) if lo is not None else (0, 0)
 
     def coeff_of(self, atom, k):
-        """coefficient (Expr) of atom**k, value must be polynomial in atom with den free of it"""
+        """coefficient (Expr) of atom**k"""
         out = {}
         for m, c in self.n.items():
-            e = Q(0)
+            e = 0
             rest = []
             for a, x in m:
                 if a.id == atom.id:
@@ -478,12 +585,12 @@ class Expr:
                     rest.append((a, x))
             if e == k:
                 out = padd(out, {tuple(rest): c})
-        return Expr(out, self.d)
+        return Expr(out)
 
     def powers_of(self, atom):
         s = set()
         for m in self.n:
-            e = Q(0)
+            e = 0
             for a, x in m:
                 if a.id == atom.id:
                     e = x
@@ -505,33 +612,29 @@ class Expr:
                 r = atom_expr(a)
             else:
                 args = [x.subs(mapping) if isinstance(x, Expr) else x for x in a.args]
-                if all((x is y) or (isinstance(x, Expr) and isinstance(y, Expr) and x.n == y.n and x.d == y.d) for x, y in zip(args, a.args)):
+                if all((x is y) or (isinstance(x, Expr) and isinstance(y, Expr) and x.n == y.n) for x, y in zip(args, a.args)):
                     r = atom_expr(a)
                 else:
                     r = rebuild(a, args)
             cache[a.id] = r
             return r
 
-        def sub_poly(p):
-            tot = ZERO
-            for m, c in p.items():
-                t = Expr({(): c})
-                for a, e in m:
-                    e2 = e.subs(mapping) if isinstance(e, Expr) else e
-                    t = t * power(sub_atom(a), e2)
-                tot = tot + t
-            return tot
+        tot = ZERO
+        for m, c in self.n.items():
+            t = Expr({(): c})
+            for a, e in m:
+                e2 = e.subs(mapping) if isinstance(e, Expr) else e
+                e2 = _exp_norm(e2)
+                t = t * power(sub_atom(a), e2)
+            tot = tot + t
+        return tot
 
-        n = sub_poly(self.n)
-        if self.is_poly():
-            return n
-        return n / sub_poly(self.d)
+    def num_den(self):
+        """clear denominators formally: (numerator Expr, denominator Expr)"""
+        return _num_den(self)
 
     def __repr__(self):
-        s = _prepr(self.n)
-        if self.is_poly():
-            return s
-        return "(%s)/(%s)" % (s, _prepr(self.d))
+        return _prepr(self.n)
 
 
 def _prepr(p):
@@ -544,7 +647,7 @@ def _prepr(p):
         for a, e in m:
             if e == 1:
                 fs.append(repr(a))
-            elif isinstance(e, Q):
+            elif isinstance(e, NUM):
                 fs.append("%r^%s" % (a, e if e.denominator == 1 else "(%s)" % e))
             else:
                 fs.append("%r^(%r)" % (a, e))
@@ -559,30 +662,223 @@ def _prepr(p):
     return " + ".join(parts).replace("+ -", "- ")
 
 
+def _clear_den(p, depth=0):
+    """Multiply a polynomial through by its base-denominators and substitute
+    their definitions; returns the resulting polynomial dict ({} iff zero)."""
+    if depth > 16:
+        return p
+    target = None
+    for m in p:
+        for a, e in m:
+            if a.kind == "base" and isinstance(e, NUM) and e < 0:
+                target = a
+                break
+        if target is not None:
+            break
+    if target is None:
+        return p
+    k = 0
+    for m in p:
+        for a, e in m:
+            if a is target and isinstance(e, NUM) and e < 0:
+                k = max(k, math.ceil(-e))
+    shifted = pscale(p, C1, ((target, k),))
+    x = _fix_bases(Expr(shifted))
+    if not x.n:
+        return {}
+    return _clear_den(x.n, depth + 1)
+
+
+def _num_den(x):
+    """x == num/den with den a product of base definitions (both Expr)."""
+    num = x
+    den = ONE
+    for _ in range(16):
+        target = None
+        k = 0
+        for m in num.n:
+            for a, e in m:
+                if a.kind == "base" and isinstance(e, NUM) and e < 0:
+                    if target is None:
+                        target = a
+                    if a is target:
+                        k = max(k, math.ceil(-e))
+        if target is None:
+            break
+        num = _fix_bases(Expr(pscale(num.n, C1, ((target, k),))))
+        den = den * _fix_bases(atom_expr(target, k))
+    return num, den
+
+
+# ---- fingerprints (fast, sound *inequality* test) ---------------------------
+
+
+def _is_prime(n):
+    if n < 2:
+        return False
+    for q in (2, 3, 5, 7, 11, 13, 17, 19, 23, 29, 31, 37):
+        if n % q == 0:
+            return n == q
+    d, r = n - 1, 0
+    while d % 2 == 0:
+        d //= 2
+        r += 1
+    for a in (2, 3, 5, 7, 11, 13, 17, 19, 23, 29, 31, 37):
+        x = pow(a, d, n)
+        if x in (1, n - 1):
+            continue
+        for _ in range(r - 1):
+            x = x * x % n
+            if x == n - 1:
+                break
+        else:
+            return False
+    return True
+
+
+def _find_prime():
+    p = (1 << 61) + 1
+    while not (p % 4 == 1 and _is_prime(p)):
+        p += 4
+    g = 2
+    while pow(g, (p - 1) // 2, p) != p - 1:
+        g += 1
+    return p, pow(g, (p - 1) // 4, p)
+
+
+_P, _SQRTM1 = _find_prime()
+_ROOTS = {}
+_AFP = {}
+
+
+def _sqrt_mod(a):
+    """a square root of a mod _P (deterministic), or None"""
+    a %= _P
+    if a == 0:
+        return 0
+    if pow(a, (_P - 1) // 2, _P) != 1:
+        return None
+    q, s_ = _P - 1, 0
+    while q % 2 == 0:
+        q //= 2
+        s_ += 1
+    z = 2
+    while pow(z, (_P - 1) // 2, _P) != _P - 1:
+        z += 1
+    m, c, t, r = s_, pow(z, q, _P), pow(a, q, _P), pow(a, (q + 1) // 2, _P)
+    while t != 1:
+        i, t2 = 0, t
+        while t2 != 1:
+            t2 = t2 * t2 % _P
+            i += 1
+        b = pow(c, 1 << (m - i - 1), _P)
+        m, c = i, b * b % _P
+        t, r = t * c % _P, r * b % _P
+    return min(r, _P - r)
+
+
+def _cx_mod(c):
+    v = c.re.numerator * pow(c.re.denominator, -1, _P)
+    if c.im != 0:
+        v += _SQRTM1 * c.im.numerator * pow(c.im.denominator, -1, _P)
+    return v % _P
+
+
+def _atom_fp(a, e):
+    """residue of a**e, or None"""
+    if isinstance(e, Expr):
+        return None
+    if a.kind == "def" or a.kind == "base":
+        key = a.id
+        v = _AFP.get(key)
+        if v is None:
+            f = a.args[0].fp()
+            v = False if f is None else f
+            _AFP[key] = v
+        if v is False:
+            return None
+        if isinstance(e, int):
+            if e < 0 and v == 0:
+                return None
+            return pow(v, e, _P)
+        if a.kind == "base" and e.denominator == 2:
+            r = _ROOTS.get(key)
+            if r is None:
+                r = _sqrt_mod(v)
+                _ROOTS[key] = False if r is None else r
+            if r is None or r is False or r == 0:
+                return None
+            return pow(r, e.numerator, _P)
+        return None
+    g = _AFP.get(a.id)
+    if g is None:
+        g = pow(a.id * 2654435761 + 40503, 5, _P) or 7
+        _AFP[a.id] = g
+    if isinstance(e, int):
+        return pow(g, 12 * e, _P)
+    if 12 % e.denominator == 0:
+        return pow(g, e.numerator * (12 // e.denominator), _P)
+    return None
+
+
+def _fingerprint(x):
+    tot = 0
+    for m, c in x.n.items():
+        t = _cx_mod(c)
+        for a, e in m:
+            f = _atom_fp(a, e)
+            if f is None:
+                return False
+            t = t * f % _P
+        tot += t
+    return tot % _P
+
+
 def as_expr(x):
     if isinstance(x, Expr):
         return x
     if isinstance(x, Cx):
-        return Expr({(): x} if not x.is_zero() else {}, _raw=True)
+        return Expr({(): x} if not x.is_zero() else {})
     if isinstance(x, (int, Q)):
-        return Expr({(): Cx(x)} if x != 0 else {}, _raw=True)
+        return Expr({(): Cx(x)} if x != 0 else {})
     if isinstance(x, Atom):
         return atom_expr(x)
     raise TypeError("cannot make an Expr of %r" % (x,))
 
 
-def atom_expr(a, e=Q(1)):
-    return Expr({((a, e),): C1}, _raw=True)
+def atom_expr(a, e=1):
+    return Expr({((a, _exp_norm(e)),): C1})
 
 
 def const(x):
     return as_expr(Q(x))
 
 
-ZERO = Expr({}, _raw=True)
-ONE = Expr({(): C1}, _raw=True)
-IMAG = Expr({(): CI}, _raw=True)
-HALF = Expr({(): Cx(Q(1, 2))}, _raw=True)
+ZERO = Expr({})
+ONE = Expr({(): C1})
+IMAG = Expr({(): CI})
+HALF = Expr({(): Cx(Q(1, 2))})
+
+
+_DEFS = {}
+
+
+def define(x, label=None):
+    """Definitional atom for a multi-term value (value numbering): keeps
+    downstream expressions small; `expand()` substitutes it back."""
+    x = as_expr(x)
+    if len(x.n) < 2:
+        return x
+    key = frozenset(x.n.items())
+    a = _DEFS.get(key)
+    if a is None:
+        sg = manifest_sign(x)
+        integer = all(c.im == 0 and c.re.denominator == 1 for c in x.n.values()) and all(
+            b.integer and isinstance(e, NUM) and e.denominator == 1 and e >= 0 for m in x.n for b, e in m)
+        a = Atom("def", "def", (x,), sg == {"+"}, True, integer)
+        a.meta = label
+        _DEFS[key] = a
+    return atom_expr(a)
 
 
 def sym(name, pos=False, real=True, integer=False):
@@ -593,44 +889,64 @@ def sym_atom(name, **kw):
     return _atom("sym", name, (), **kw)
 
 
+def manifest_sign(e):
+    """sign set derivable from positivity flags alone"""
+    if not e.n:
+        return {"0"}
+    signs = set()
+    for m, c in e.n.items():
+        if c.im != 0:
+            return {"-", "0", "+"}
+        okpos = all(a.pos or (isinstance(x, NUM) and x.denominator == 1 and x % 2 == 0 and a.real) for a, x in m)
+        if not okpos:
+            return {"-", "0", "+"}
+        strict = all(a.pos for a, x in m)
+        signs.add(("+" if c.re > 0 else "-", strict))
+    kinds = {s for s, _ in signs}
+    if len(kinds) == 1:
+        s = next(iter(kinds))
+        if any(st for _, st in signs):
+            return {s}
+        return {s, "0"}
+    return {"-", "0", "+"}
+
+
 # --------------------------------------------------------------------------
 # powers
 
 
 def _fix_bases(x):
-    """base(P)^e with |e| >= 1 or e < 0  ->  P^floor(e) * base(P)^frac(e)."""
+    """base(P)^e with e >= 1  ->  P^floor(e) * base(P)^frac(e)."""
     need = False
-    for p in (x.n, x.d):
-        for m in p:
-            for a, e in m:
-                if a.kind == "base" and isinstance(e, Q) and (e >= 1 or e < 0):
-                    need = True
+    for m in x.n:
+        for a, e in m:
+            if a.kind == "base" and isinstance(e, NUM) and e >= 1:
+                need = True
+                break
+        if need:
+            break
     if not need:
         return x
-
-    def fix_poly(p):
-        tot = ZERO
-        for m, c in p.items():
-            t = Expr({(): c}, _raw=True)
-            rest = []
-            extra = ONE
-            for a, e in m:
-                if a.kind == "base" and isinstance(e, Q) and (e >= 1 or e < 0):
-                    k = math.floor(e)
-                    f = e - k
-                    extra = extra * _int_pow(a.args[0], k)
-                    if f != 0:
-                        rest.append((a, f))
-                else:
-                    rest.append((a, e))
-            t = Expr({tuple(rest): c}, _raw=True) * extra
-            tot = tot + t
-        return tot
-
-    n = fix_poly(x.n)
-    if x.is_poly():
-        return n
-    return n / fix_poly(x.d)
+    tot = {}
+    for m, c in x.n.items():
+        rest = []
+        extra = None
+        for a, e in m:
+            if a.kind == "base" and isinstance(e, NUM) and e >= 1:
+                k = math.floor(e)
+                f = e - k
+                pk = _int_pow(a.args[0], k)
+                extra = pk if extra is None else extra * pk
+                if f != 0:
+                    rest.append((a, f))
+            else:
+                rest.append((a, e))
+        if extra is None:
+            tot = padd(tot, {m: c})
+        else:
+            t = Expr({tuple(rest): c}) * extra
+            tot = padd(tot, t.n)
+    return Expr(tot)
 
 
 def _int_pow(x, k):
@@ -638,50 +954,46 @@ def _int_pow(x, k):
         return ONE
     if k < 0:
         return _int_pow(x.inv(), -k)
-    r = ONE
+    r = None
     b = x
     while k:
         if k & 1:
-            r = r * b
+            r = b if r is None else r * b
         k >>= 1
         if k:
             b = b * b
     return r
 
 
-def _mono_positive(c, m):
-    return c.im == 0 and c.re > 0 and all(a.pos or (isinstance(e, Q) and e.denominator == 1 and e % 2 == 0) for a, e in m)
-
-
 def power(x, e):
     x = as_expr(x)
-    e = _exp_norm(e if isinstance(e, (Expr, Q)) else Q(e))
-    if isinstance(e, Q) and e.denominator == 1:
-        return _int_pow(x, int(e))
-    if x.is_zero():
+    e = _exp_norm(e if isinstance(e, (Expr, int, Q)) else Q(e))
+    if isinstance(e, int):
+        return _int_pow(x, e)
+    if not x.n:
         return ZERO
     cm = x.as_mono()
     if cm is not None:
         c, m = cm
         if c.im == 0 and c.re > 0 and all(a.pos for a, _ in m):
-            r = Expr({mono_pow(m, e): C1}, _raw=True)
+            r = Expr({mono_pow(m, e): C1})
             if c != C1:
-                r = r * _base_pow(Expr({(): c}, _raw=True), e)
+                r = r * _base_pow(Expr({(): c}), e)
             return _fix_bases(r)
         # (p^2)^(1/2) etc. are not simplified for atoms of unknown sign
     return _base_pow(x, e)
 
 
 def _base_pow(x, e):
+    x = x.simp()
     c = x.as_const()
-    if c is not None and isinstance(e, Q) and c.im == 0 and c.re > 0:
-        # exact rational roots of rational constants
+    if c is not None and isinstance(e, NUM) and c.im == 0 and c.re > 0:
         num, den = c.re.numerator, c.re.denominator
         rn, rd = _iroot(num, e.denominator), _iroot(den, e.denominator)
         if rn is not None and rd is not None:
             return _int_pow(as_expr(Q(rn, rd)), e.numerator)
-    a = _atom("base", "base", (x,), pos=True)
-    return _fix_bases(Expr({((a, e),): C1}, _raw=True))
+    a = _atom("base", "base", (x,), pos=(manifest_sign(x) == {"+"}))
+    return _fix_bases(Expr({((a, e),): C1}))
 
 
 def _iroot(n, k):
@@ -702,24 +1014,27 @@ def sqrt(x):
 # exp / log and opaque functions
 
 
+def _lead_negative(x):
+    if not x.n:
+        return False
+    _, c = _lead(x.n)
+    return c.re < 0 or (c.re == 0 and c.im < 0)
+
+
 def exp(x):
-    """exp of a value.  A polynomial exponent sum_k c_k*m_k is split into
-    independent atoms exp(m_k)^(Re c_k) * expi(m_k)^(Im c_k) (monic monomials
-    m_k), so exponentials are ordinary generators with rational exponents."""
+    """exp of a value.  The exponent sum_k c_k*m_k is split into independent
+    atoms exp(m_k)^(Re c_k) * expi(m_k)^(Im c_k) (monic monomials m_k), so
+    exponentials are ordinary generators with rational exponents."""
     x = as_expr(x)
-    if x.is_zero():
+    if not x.n:
         return ONE
-    if not x.is_poly():
-        if _lead_negative(Expr(x.n)):
-            return atom_expr(_atom("fn", "exp", (-x,), pos=True), Q(-1))
-        return atom_expr(_atom("fn", "exp", (x,), pos=True))
     out = ONE
     for m, c in x.n.items():
         logs = [(a, e) for a, e in m if a.kind == "fn" and a.name == "log" and e == 1]
         if len(logs) == 1 and c.im == 0:
             a = logs[0][0]
             others = tuple((b, eb) for b, eb in m if b is not a)
-            out = out * power(a.args[0], Expr({others: c}, _raw=True))
+            out = out * power(a.args[0], Expr({others: c}))
             continue
         if not m:
             if c.re != 0:
@@ -727,7 +1042,7 @@ def exp(x):
             if c.im != 0:
                 out = out * atom_expr(_atom("fn", "expi", (ONE,)), c.im)
             continue
-        marg = Expr({m: C1}, _raw=True)
+        marg = Expr({m: C1})
         if c.re != 0:
             out = out * atom_expr(_atom("fn", "exp", (marg,), pos=True), c.re)
         if c.im != 0:
@@ -762,7 +1077,7 @@ def log(x):
         if c.im == 0 and c.re > 0 and all(a.pos for a, _ in m):
             tot = ZERO
             if c != C1:
-                tot = tot + fn("log", Expr({(): c}, _raw=True))
+                tot = tot + fn("log", Expr({(): c}))
             for a, e in m:
                 if a is E:
                     tot = tot + as_expr(e)
@@ -778,7 +1093,7 @@ def log(x):
 
 def _pi_multiple(x):
     """x == q*pi for rational q -> q, else None"""
-    if x.is_zero():
+    if not x.n:
         return Q(0)
     cm = x.as_mono()
     if cm is None:
@@ -787,13 +1102,6 @@ def _pi_multiple(x):
     if len(m) == 1 and m[0][0] is PI and m[0][1] == 1 and c.im == 0:
         return c.re
     return None
-
-
-def _lead_negative(x):
-    if x.is_zero() or not x.is_poly():
-        return False
-    _, c = _lead(x.n)
-    return c.re < 0 or (c.re == 0 and c.im < 0)
 
 
 _SIN = {Q(0): 0, Q(1, 2): 1, Q(1): 0, Q(3, 2): -1}
@@ -830,17 +1138,16 @@ def arctan(x):
 
 
 def fn(name, *args, pos=False, integer=False):
-    args = tuple(as_expr(a) if not isinstance(a, (str, tuple)) else a for a in args)
+    args = tuple(as_expr(a).simp() if not isinstance(a, (str, tuple)) else a for a in args)
     return atom_expr(_atom("fn", name, args, pos=pos, integer=integer))
 
 
-_REBUILD = {"log": log, "sin": sin, "cos": cos, "arctan": arctan,
-            "exp": exp, "expi": lambda a: exp(IMAG * a)}
+_REBUILD = {"log": log, "sin": sin, "cos": cos, "arctan": arctan, "exp": exp, "expi": lambda a: exp(IMAG * a)}
 
 
 def rebuild(a, args):
-    if a.kind == "base":
-        return _base_pow(args[0], Q(1))  # caller re-applies the exponent
+    if a.kind in ("base", "def"):
+        return args[0]  # caller re-applies the exponent through power()
     if a.kind == "fn":
         f = _REBUILD.get(a.name)
         if f is not None:
@@ -866,10 +1173,10 @@ def diff(x, atom):
             return ONE
         if not a.args:
             return ZERO
-        if a.kind == "base":
-            return diff(a.args[0], atom)  # derivative of the base itself
         if a.kind == "fn":
             u = a.args[0]
+            if not isinstance(u, Expr):
+                return ZERO
             du = diff(u, atom)
             if du.is_zero():
                 return ZERO
@@ -889,34 +1196,25 @@ def diff(x, atom):
             raise NotImplementedError("derivative of %r" % (a,))
         return ZERO
 
-    def d_poly(p):
-        tot = ZERO
-        for m, c in p.items():
-            for k, (a, e) in enumerate(m):
-                if isinstance(e, Expr) and atom in e.atoms():
-                    raise NotImplementedError("symbolic exponent depends on variable")
-                if a.kind == "base":
-                    dbase = diff(a.args[0], atom)
-                    if dbase.is_zero():
-                        continue
-                    others = m[:k] + m[k + 1:]
-                    t = Expr({others: c}, _raw=True) * as_expr(e) * power(a.args[0], _exp_add(e, Q(-1))) * dbase
-                    tot = tot + t
+    tot = ZERO
+    for m, c in x.n.items():
+        for k, (a, e) in enumerate(m):
+            if isinstance(e, Expr) and atom in e.atoms():
+                raise NotImplementedError("symbolic exponent depends on variable")
+            others = m[:k] + m[k + 1:]
+            if a.kind in ("base", "def"):
+                dbase = diff(a.args[0], atom)
+                if dbase.is_zero():
                     continue
-                da = d_atom(a)
-                if da.is_zero():
-                    continue
-                others = m[:k] + m[k + 1:]
-                t = Expr({others: c}, _raw=True) * as_expr(e) * power(atom_expr(a), _exp_add(e, Q(-1))) * da
+                t = Expr({others: c}) * as_expr(e) * power(a.args[0], _exp_add(e, -1)) * dbase
                 tot = tot + t
-        return tot
-
-    dn = d_poly(x.n)
-    if x.is_poly():
-        return dn
-    dd = d_poly(x.d)
-    n, d = Expr(x.n), Expr(x.d)
-    return (dn * d - n * dd) / (d * d)
+                continue
+            da = d_atom(a)
+            if da.is_zero():
+                continue
+            t = Expr({others: c}) * as_expr(e) * power(atom_expr(a), _exp_add(e, -1)) * da
+            tot = tot + t
+    return tot
 
 
 reset()
